@@ -117,12 +117,13 @@ def _lin(x, a=1.0, b=0.5):
 
 def _data(case, rng, n):
     hs = rng.weibull(1.5, n) * 2.2 + 0.05
-    mu = 0.9 + 0.55 * hs**0.45
+    first_fixed = int(case["sub"]) % 5 in (1, 3)  # the conditional templates fix their first parameter: the data agree with it
+    mu = 0.9 + 0.55 * hs**0.45 if not first_fixed else np.full(n, 1.6)
     sig = 0.06 + 0.2 * np.exp(-0.3 * hs)
     tz = np.exp(mu + sig * rng.standard_normal(n))
     cols = [hs, tz]
     if case["n_dim"] == 3:
-        cols.append(3.0 + 1.5 * hs + (0.8 + 0.1 * hs) * rng.standard_normal(n))
+        cols.append((3.0 + 1.5 * hs if not first_fixed else 6.0) + (0.8 + 0.1 * hs) * rng.standard_normal(n))
     X = np.c_[tuple(cols)]
     if case["round"] is not None:
         X = np.round(X, case["round"])
@@ -168,13 +169,19 @@ def _build(case, mk_slicer, warr):
     else:
         dist0, fd0 = ExponentiatedWeibullDistribution(f_delta=1.2), {"method": "lsq", "weights": None}
     bounds3 = [(0, None), (0, None), (None, None)]
-    descs = [
-        {"distribution": dist0, "intervals": mk_slicer()},
-        {"distribution": LogNormalDistribution(), "conditional_on": 0, "intervals": mk_slicer(), "parameters": {"mu": DependenceFunction(_power3, bounds3), "sigma": DependenceFunction(_exp3, bounds3)}},
-    ]
+    # which parameters of a conditional template are fixed: none, the FIRST of the family's parameter order, the last
+    fixed_kind = ["none", "first-fixed", "none", "first-fixed", "none"][int(case["sub"]) % 5]
+    if fixed_kind == "first-fixed":
+        d1 = {"distribution": LogNormalDistribution(f_mu=1.6), "conditional_on": 0, "intervals": mk_slicer(), "parameters": {"sigma": DependenceFunction(_exp3, bounds3)}}
+    else:
+        d1 = {"distribution": LogNormalDistribution(), "conditional_on": 0, "intervals": mk_slicer(), "parameters": {"mu": DependenceFunction(_power3, bounds3), "sigma": DependenceFunction(_exp3, bounds3)}}
+    descs = [{"distribution": dist0, "intervals": mk_slicer()}, d1]
     fds = [fd0, {"method": "mle"}]
     if case["n_dim"] == 3:
-        descs.append({"distribution": NormalDistribution(), "conditional_on": 0, "parameters": {"mu": DependenceFunction(_lin), "sigma": DependenceFunction(_lin, [(0, None), (0, None)])}})
+        if fixed_kind == "first-fixed":
+            descs.append({"distribution": NormalDistribution(f_mu=6.0), "conditional_on": 0, "parameters": {"sigma": DependenceFunction(_lin, [(0, None), (0, None)])}})
+        else:
+            descs.append({"distribution": NormalDistribution(), "conditional_on": 0, "parameters": {"mu": DependenceFunction(_lin), "sigma": DependenceFunction(_lin, [(0, None), (0, None)])}})
         fds.append(None)
     return GlobalHierarchicalModel(descs), fds
 
@@ -267,6 +274,7 @@ def run_case(case, ctx):
     ctx.cls("dim0", case["dim0"])
     ctx.cls("history", case["history"])
     ctx.cls("n_dim", case["n_dim"])
+    ctx.cls("conditional-template", ["none", "first-fixed", "none", "first-fixed", "none"][int(case["sub"]) % 5])
     ctx.sig = str({k: v for k, v in case.items() if k not in ("id", "cost")})
     info = {"slicer": case["slicer"], "slicer_cfg": {k: (v if not hasattr(v, "item") else v.item()) for k, v in cfg.items()}, "rows": n, "order": case["order"], "round": case["round"], "dim0": case["dim0"]}
     grid = np.linspace(0.3, float(np.quantile(X[:, 0], 0.98)), 9)
